@@ -1253,6 +1253,8 @@ func (c *Ctx) singleDef(pk *packages.Package, id *ast.Ident) ast.Expr {
 					n++
 					if len(s.Lhs) == len(s.Rhs) {
 						def = s.Rhs[i]
+					} else if len(s.Rhs) == 1 {
+						def = s.Rhs[0] // multi-value call / comma-ok
 					}
 				}
 			}
